@@ -1,3 +1,78 @@
-(* C02 -- theorems are added below as they are proved (see design-notes/C02.md). *)
+(* C02 -- Each block delivers exactly the new ancestry of its Atropos.
+   Statements only; proofs in proofs/AbftDfs.v AbftChain.v AbftSeal.v AbftProcess.v. *)
 From Coq Require Import NArith List.
-From LV Require Import model.Abft model.AbftRun spec.AbftSpec.
+From LV Require Import model.VecIndex model.Abft model.AbftRun spec.AbftSpec
+  proofs.AbftDfs proofs.AbftSeal proofs.AbftProcess proofs.AbftChain proofs.AbftRoots proofs.AbftRooted proofs.AbftSealWitness.
+Import ListNotations.
+Local Open Scope N_scope.
+
+(* The DFS of confirmEvents/dfsSubgraph: started at the Atropos over ancestor-closed confirmed marks C0 it
+   delivers, each once, exactly the ancestors-or-self of the Atropos that are not yet confirmed, marks them
+   with the frame, and leaves the marks ancestor-closed.  [reach] = reflexive-transitive parent closure. *)
+Theorem C02_dfs_delivers_new_ancestry : forall es frame, frame <> 0 -> forall C0, closed es C0 ->
+  forall atr fuel dl conf',
+  dfs_confirm fuel es frame [atr] C0 [] = Ok (dl, conf') ->
+  NoDup dl /\
+  (forall x, In x dl <-> reach es atr x /\ conf_get C0 x = 0) /\
+  (forall x, conf_get conf' x = if in_dec N.eq_dec x dl then frame else conf_get C0 x) /\
+  closed es conf'.
+Proof. exact dfs_confirm_spec. Qed.
+
+(* One Process call: its blocks deliver in turn, without repetition, exactly the ancestry of their Atropos
+   that was neither confirmed before the call nor delivered by an earlier block of the call; afterwards
+   (no seal) the confirmed set is the old one plus everything delivered, and it is ancestor-closed again --
+   so the statement chains over the calls of an epoch: no event is delivered twice, and every delivered
+   event's ancestors were delivered no later. *)
+Theorem C02_process_delivers : forall cap end_block es st e r bl st',
+  elinv st -> closed es (l_conf st) -> process cap end_block es st e = (r, bl, st') ->
+  delivered_ok es (marked (l_conf st)) bl /\
+  (existsb is_sealed bl = false ->
+     closed es (l_conf st') /\
+     forall x, marked (l_conf st') x <-> marked (l_conf st) x \/ exists b, In b bl /\ In x (b_delivered b)).
+Proof. exact process_delivers. Qed.
+
+(* a new epoch starts with no confirmed event (sealing and Reset), and the empty set is ancestor-closed *)
+Theorem C02_epoch_starts_unconfirmed : forall es st ep nv, l_conf (reset st ep nv) = [] /\ closed es [].
+Proof. intros. split; [reflexivity | intros w ev p M; elim M; reflexivity]. Qed.
+
+(* the blocks of an epoch have consecutive frame numbers starting at 1: each call continues at
+   LastDecidedFrame+1, a seal ends the call and the next epoch starts with LastDecidedFrame = 0 *)
+Theorem C02_frames_consecutive : forall cap end_block es st e r bl st',
+  elinv st -> process cap end_block es st e = (r, bl, st') -> call_post st bl st'.
+Proof. exact process_frames. Qed.
+
+(* each block's Atropos is a root of the block's frame: it is stored in the root table for exactly that
+   frame (R = the table right after the processed event's own roots were registered; it does not change
+   before a seal).  [V] = every yes-vote of the election that names a root names a stored root of the frame
+   being decided; it holds at genesis / Reset / after a seal and is re-established by every call.
+   ([names_root R f a] reads "a <> zero hash -> a root (f, _, a) is in R": a decided yes-vote always
+   carries the observed root; that the zero hash never occurs is not proved.) *)
+Theorem C02_atropos_is_root : forall cap end_block es st e r bl st',
+  V st -> elinv st -> process cap end_block es st e = (r, bl, st') ->
+  exists R, (forall r0, In r0 (l_roots st) -> In r0 R) /\ all_rooted R bl /\ (sealed_last bl = false -> V st').
+Proof. exact process_atropos_rooted. Qed.
+Theorem C02_V_initially : forall ep v st, V (genesis ep v) /\ V (reset st ep v).
+Proof. intros; split; [apply V_genesis | apply V_reset_state]. Qed.
+
+(* restart: the blocks Bootstrap may emit obey the same numbering *)
+Theorem C02_bootstrap_frames : forall cap end_block es p r bl st',
+  bootstrap cap end_block es p = (r, bl, st') ->
+  frames_ok (p_ldf p) bl /\ elinv st' /\
+  if sealed_last bl then l_ldf st' = 0 /\ l_epoch st' = p_epoch p + 1
+  else l_ldf st' = p_ldf p + N.of_nat (length bl) /\ l_epoch st' = p_epoch p /\ l_vals st' = p_vals p.
+Proof. exact bootstrap_frames. Qed.
+
+(* non-vacuity: the run of proofs/AbftSealWitness.v emits blocks (frame 1 of two epochs) and satisfies the
+   executable trace specification (graph ancestry, at-most-once, frame numbering, Atropos is a root) *)
+Example C02_witness_run :
+  match nth_error s_run 2 with Some (ObsP None [b] 0 2) => b_delivered b | _ => [] end = [a_id s1] /\
+  c02_trace (chk_start 1 s_vals) (combine s_ops s_run) = true.
+Proof. vm_compute. repeat split. Qed.
+
+Print Assumptions C02_dfs_delivers_new_ancestry.
+Print Assumptions C02_process_delivers.
+Print Assumptions C02_epoch_starts_unconfirmed.
+Print Assumptions C02_frames_consecutive.
+Print Assumptions C02_bootstrap_frames.
+Print Assumptions C02_atropos_is_root.
+Print Assumptions C02_V_initially.
